@@ -1,37 +1,17 @@
 (** Reading of the names that the regenerated decision structures (coq/gen/Guards.v,
     re-emitted from /repo by harness/gen_tables.py on every run) choose among, in terms of
-    the hand-written models: a named sub-period is the Period.v function of the same name,
-    a size function is the Period.v function of the same name, and the three flags the
-    option dispatch of CorePopulation.__call__ looks at are read off the model's [opt].
+    the hand-written models: a named sub-period and a size function are the Period.v
+    functions of the same name ([apply_named], [apply_size] of GuardsTypes.v), and the three
+    flags the option dispatch of CorePopulation.__call__ looks at are read off the model's [opt].
 
     With these, [src_check_consistency], [src_calc_add], [src_calc_divide] and [src_call]
     are the engine's four decision points re-assembled from the *regenerated* pieces; the
     theorems of props/GuardsTie.v say that they are equal to the hand-written
     [Engine.check_consistency], [calc_add], [calc_divide], [call].  No proofs here. *)
 From Coq Require Import ZArith List Bool.
-From Verif Require Import Base Cal Tables Period Engine Guards.
+From Verif Require Import Base Cal Tables Period Engine GuardsTypes Guards.
 Import ListNotations.
 Open Scope Z_scope.
-
-(** period.this_year / first_month / first_day / first_week / first_weekday *)
-Definition apply_named (n : named_period) (q : period) : res period :=
-  match n with
-  | NThisYear => this_year q
-  | NFirstMonth => first_month q
-  | NFirstDay => first_day q
-  | NFirstWeek => first_week q
-  | NFirstWeekday => first_weekday q
-  end.
-
-(** period.size_in_years / _months / _days / _weeks / _weekdays *)
-Definition apply_size (f : size_fn) (cp : period) : res Z :=
-  match f with
-  | SInYears => size_in_years cp
-  | SInMonths => size_in_months cp
-  | SInDays => size_in_days cp
-  | SInWeeks => size_in_weeks cp
-  | SInWeekdays => size_in_weekdays cp
-  end.
 
 (** options=None | [ADD] | [DIVIDE] | [ADD, DIVIDE] | ["LAGRANGIAN"] (harness/rules.py):
     is it a sequence, does it contain ADD, does it contain DIVIDE *)
